@@ -43,7 +43,7 @@ structure St where
   tfs : List (String × String) := []                   -- C17: the files the session can load
 
 def Emu2a.BusSpec.str (s : BusSpec) : String :=
-  s!"ram={ramHash s.ram} out={hex2 s.outFE}{hex2 s.outFF} in={hex2 s.in0}{hex2 s.in1}{hex2 s.in2}{hex2 s.in3} mask={hex2 s.mask} do={hex2 s.do1}{hex2 s.do2} di={hex2 s.di1}"
+  s!"ram={ramHash s.ram} out={hex2 s.outFE}{hex2 s.outFF} in={hex2 s.in0}{hex2 s.in1}{hex2 s.in2}{hex2 s.in3} mask={hex2 s.mask} status={hex2 s.status} do={hex2 s.do1}{hex2 s.do2} di={hex2 s.di1}"
 
 def archOf (m : Machine) : Isa.Arch :=
   let r := m.core.regs
@@ -321,6 +321,7 @@ def applyOp (s : St) (ws : List String) : St × String :=
     match byteOf v with
     | some v => ({ s with m := m.mapBoard (·.setDi1 v), bspec := s.bspec.setDi1 v }, "ok")
     | none => bad
+  | ["spec.irq"] => ({ s with m := m.keyInterrupt, bspec := s.bspec.keyIrq }, "ok")
   | ["spec.busd"] => (s, s.bspec.str)
   | ["spec.run", pre, wait, wrote, sp, pc, ss, ps, loads, lb] =>
     match boolOf wait, boolOf wrote, sp.toNat?, pc.toNat?, parseSS ss, parsePS ps, boolOf loads, lb.toNat? with
